@@ -320,6 +320,8 @@ public:
     //! check if key exists
     bool exists(const Key& k)
     {
+        if (root_ == nullptr)
+            return false;
         root_ = splay(k, root_, cmp_);
         return !cmp_(root_->key, k) && !cmp_(k, root_->key);
     }
